@@ -623,3 +623,14 @@ func (p *Program) expandLocalsAny(fi *FuncInfo, e ast.Expr, depth int) ast.Expr 
 	}
 	return e
 }
+
+// derefType strips one pointer level.
+func derefType(t types.Type) types.Type {
+	if t == nil {
+		return types.Typ[types.Invalid]
+	}
+	if pt, ok := t.Underlying().(*types.Pointer); ok {
+		return pt.Elem()
+	}
+	return t
+}
